@@ -175,6 +175,51 @@ theorem weakAssign_flat_edges (hI : ∀ n, I n ≤ 2) {g : EGraph} (hg : WF I g)
     (hp : (g.fl src p).ext = true ∨ (g.fl src p).int = true) : ((waFlat I g dest src).fl dest p).int = true :=
   (waFlat_spec hI hg dest src).edges p hp
 
+/-- `StoreField(addr, val, "")` on the flat fragment: a fold of flat weak assignments, node group untouched -/
+theorem storeField_flat_eq (ng : NG) (hI : ∀ n, ng.intr n ≤ 2) {g : EGraph} (hg : WF ng.intr g) (addr val : Node)
+    (hns : NoSubOut g val) :
+    storeField ng g addr val none = (ng, foldWA ng.intr g ((pointees g addr).map fun p => (p, val))) :=
+  storeField_flat ng hI hg addr val hns
+
+theorem storeField_preserves_wf_partial (ng : NG) (hI : ∀ n, ng.intr n ≤ 2) {g : EGraph} (hg : WF ng.intr g)
+    (addr val : Node) (hns : NoSubOut g val) : WF ng.intr (storeField ng g addr val none).2 := by
+  rw [storeField_flat_eq ng hI hg addr val hns]; exact (foldWA_spec hI hg _).1
+
+/-- **storeField_mono** (partial: empty field name, no subnode edge out of the stored value, and
+the stored value is not itself a pointee of the address — value nodes of SSA registers never are) -/
+theorem storeField_mono_partial (ng : NG) (hI : ∀ n, ng.intr n ≤ 2) {g h : EGraph} (hg : WF ng.intr g)
+    (hh : WF ng.intr h) (hle : lessEqual g h = true) (addr val : Node) (hg' : NoSubOut g val)
+    (hh' : NoSubOut h val) (hdisj : val ∉ pointees h addr) :
+    lessEqual (storeField ng g addr val none).2 (storeField ng h addr val none).2 = true := by
+  have hle' := (lessEqual_iff hg.toRep).1 hle
+  rw [storeField_flat_eq ng hI hg addr val hg', storeField_flat_eq ng hI hh addr val hh']
+  apply (lessEqual_iff (foldWA_spec hI hg _).1.toRep).2
+  have hsubp : ∀ p, p ∈ pointees g addr → p ∈ pointees h addr := by
+    intro p hp
+    obtain ⟨hpd, hpe⟩ := mem_succs.1 hp
+    exact mem_succs.2 ⟨hle'.dom p hpd, Flags.any_of_le (hle'.fl addr p) hpe⟩
+  apply foldWA_mono_le hI hg hh hle'
+  · intro pr hpr
+    obtain ⟨p, hp, rfl⟩ := List.mem_map.1 hpr
+    exact List.mem_map.2 ⟨p, hsubp p hp, rfl⟩
+  · intro pr pr' hpr hpr' e
+    obtain ⟨p, _, rfl⟩ := List.mem_map.1 hpr
+    obtain ⟨p', hp', rfl⟩ := List.mem_map.1 hpr'
+    have e' : val = p' := e
+    exact hdisj (e' ▸ hsubp p' hp')
+  · intro pr hpr
+    obtain ⟨p, hp, rfl⟩ := List.mem_map.1 hpr
+    exact (mem_succs.1 (hsubp p hp)).1
+
+/-- the generic form used for loads as well: a sequence of flat weak assignments is monotone in the
+graph and in the set of (destination, source) pairs, provided no source is a destination -/
+theorem foldWA_mono (hI : ∀ n, I n ≤ 2) {g h : EGraph} (hg : WF I g) (hh : WF I h) (hle : lessEqual g h = true)
+    (ps ps' : List (Node × Node)) (hsub : ∀ pr, pr ∈ ps → pr ∈ ps')
+    (hdisj : ∀ pr pr', pr ∈ ps → pr' ∈ ps → pr.2 ≠ pr'.1) (hdom : ∀ pr, pr ∈ ps → pr.1 ∈ h.dom) :
+    lessEqual (foldWA I g ps) (foldWA I h ps') = true :=
+  (lessEqual_iff (foldWA_spec hI hg ps).1.toRep).2
+    (foldWA_mono_le hI hg hh ((lessEqual_iff hg.toRep).1 hle) ps ps' hsub hdisj hdom)
+
 /-- leaking a set of nodes of the graph (`CallUnknown` on their pointers): well-formed, same edges,
 every given node leaked, and the least such status -/
 theorem leakAll_preserves_wf {g : EGraph} (hg : WF I g) (ns : List Node) (hns : ∀ n, n ∈ ns → n ∈ g.dom) :
